@@ -309,6 +309,10 @@ def run(ctx):
     ctx.attempt(_beamops.interpolation_rule, ctx, _ElemLib(repo), "R9.13")
     ctx.attempt(load_family_rule, ctx)
     ctx.attempt(empty_selection_rule, ctx)
+    from .c08 import mesh_motion_rule as _mesh_motion_rule
+
+    # loads are integrated on the boundary groups: after a motion / re-coordination their Jacobians are those of the new geometry
+    ctx.attempt(_mesh_motion_rule, ctx, "R9.16")
     selection_rules(ctx)
 
     # ---- R9.5 point load
